@@ -34,7 +34,7 @@ struct Combo {
 }
 
 /// Index of the first large spectrum in `spectra()`; those are run with a reduced option set.
-const FIRST_BIG: usize = 18;
+const FIRST_BIG: usize = 21;
 
 fn spectra() -> &'static Vec<RefArray> {
     static S: std::sync::OnceLock<Vec<RefArray>> = std::sync::OnceLock::new();
@@ -67,6 +67,11 @@ fn build_spectra() -> Vec<RefArray> {
         RefArray { shape: vec![2, 3], data: vec![4.0, 0.0, 0.0, 0.0, 0.0, 6.0] },
         // values whose binary form contains line-feed bytes (0x0a), for the npy hops of the chain
         RefArray { shape: vec![2, 2], data: vec![2053.0, 3.25, 212992.0, 2181.0] },
+        // whole numbers beyond the 64-bit integers (marginal sums of such entries too), and a spectrum
+        // whose total is a subnormal number
+        RefArray { shape: vec![2, 2], data: vec![6e18, 6e18, 6e18, 5e18] },
+        RefArray { shape: vec![4], data: vec![1e19, 1180591620717411303424.0, 9223372036854775808.0, 1e300] },
+        RefArray { shape: vec![2, 3], data: vec![7e-300, 1e-310, 3e-310, 2e-310, 4e-310, 9e-300] },
         // more than 4096 entries (buffer / block boundaries of the writers)
         RefArray::from_fn(&[4100], |f, _| (f % 97) as f64 + 0.5),
         RefArray::from_fn(&[65, 65], |f, _| ((f * 7) % 101) as f64 + 1.0),
@@ -113,7 +118,11 @@ fn output_args(output: usize) -> Vec<String> {
 
 /// Reference semantics of the documented order.
 fn reference(c: &Combo) -> RefArray {
-    let x = &spectra()[c.spectrum];
+    reference_of(c, &spectra()[c.spectrum])
+}
+
+/// The reference on given input values (what an input file holds after conversion to its dtype).
+fn reference_of(c: &Combo, x: &RefArray) -> RefArray {
     let d = x.shape.len();
     let mut cur = x.clone();
     let rem = removed_axes(&c.marg, d);
@@ -315,7 +324,15 @@ fn eval(c: &Combo, scratch: &Scratch) -> Vec<Viol> {
 /// on stdout or in a file given with `-o`: the result must equal the reference whatever the route.
 fn eval_io(c: &Combo, npy_in: bool, transport: usize, sink_file: bool, scratch: &Scratch) -> Option<Viol> {
     let x = &spectra()[c.spectrum];
-    let (bytes, suffix) = if npy_in {
+    // every fifth npy case stores the values in single precision (exactly widened on reading), with
+    // values that are not short decimals
+    let single = npy_in && (transport + c.output + c.mask as usize + 2 * c.normalize as usize) % 5 == 0;
+    let stored: RefArray = if single { RefArray { shape: x.shape.clone(), data: x.data.iter().map(|v| ((*v / 3.0) as f32) as f64).collect() } } else { x.clone() };
+    let x = &stored;
+    let (bytes, suffix) = if single {
+        let data: Vec<u8> = x.data.iter().flat_map(|v| (*v as f32).to_le_bytes()).collect();
+        (synth(1, &dict_text("<f4", false, &x.shape, &Spelling::numpy()), &data), ".npy")
+    } else if npy_in {
         let data: Vec<u8> = x.data.iter().flat_map(|v| v.to_le_bytes()).collect();
         (synth(1, &dict_text("<f8", false, &x.shape, &Spelling::numpy()), &data), ".npy")
     } else {
@@ -338,9 +355,12 @@ fn eval_io(c: &Combo, npy_in: bool, transport: usize, sink_file: bool, scratch: 
         o.stdout = std::fs::read(&out_path).unwrap_or_default();
         let _ = std::fs::remove_file(&out_path);
     }
-    let expect = reference(c);
+    let expect = reference_of(c, x);
+    // values read from single precision are widened exactly: without a projection the npy output
+    // agrees to rounding of the few sums involved
+    let tight = single && c.output == 2 && c.project.is_none();
     let verdict = match parse_output(&o, c.output) {
-        Ok(got) if close_to_ref(&got, &expect, c.output) => return None,
+        Ok(got) if close_to_ref(&got, &expect, c.output) && (!tight || got.data.iter().zip(&expect.data).all(|(g, e)| (g.is_nan() && e.is_nan()) || (g - e).abs() <= 1e-13 * e.abs())) => return None,
         Ok(got) => format!("got {:?} {:?}, reference {:?} {:?}", got.shape, got.data, expect.shape, expect.data),
         Err(e) => e,
     };
